@@ -26,9 +26,30 @@ template <typename C, typename T> static inline size_t put(const C& c, T* out){
 
 // hybrid ndarray: bounded buffer (static_vector) + fixed-dim run-time shape
 template <typename T, size_t CAP, size_t DIM> using hyb_t = na::ndarray_t< na::static_vector<T,CAP>, nmtools_array<size_t,DIM> >;
+// the only loops over whole buffers live in these named helpers, so that harnesses can give them their own unwind bound
+// (--unwindset k_fill_u32.0:<cells+1>) while the nmtools loops keep the small global bound
+KERNEL void K(k_fill_u32)(unsigned* dst, const unsigned* src, size_t n){ for (size_t i=0;i<n;i++) dst[i]=src[i]; }
+KERNEL void K(k_fill_u8)(unsigned char* dst, const unsigned char* src, size_t n){ for (size_t i=0;i<n;i++) dst[i]=src[i]; }
+KERNEL void K(k_fill_f32)(float* dst, const float* src, size_t n){ for (size_t i=0;i<n;i++) dst[i]=src[i]; }
+KERNEL void K(k_fill_u64)(size_t* dst, const size_t* src, size_t n){ for (size_t i=0;i<n;i++) dst[i]=src[i]; }
+static inline void fill_n(unsigned* d, const unsigned* s, size_t n){ K(k_fill_u32)(d,s,n); }
+static inline void fill_n(unsigned char* d, const unsigned char* s, size_t n){ K(k_fill_u8)(d,s,n); }
+static inline void fill_n(float* d, const float* s, size_t n){ K(k_fill_f32)(d,s,n); }
+static inline void fill_n(size_t* d, const size_t* s, size_t n){ K(k_fill_u64)(d,s,n); }
+static inline void fill_n(int* d, const int* s, size_t n){ K(k_fill_u32)((unsigned*)d,(const unsigned*)s,n); }
 template <typename A, typename T> static inline bool fill(A& a, const T* d){
-  size_t n = nm::size(a); for (size_t i=0;i<n;i++) a.data_[i]=d[i]; return true; }
+  size_t n = nm::size(a); fill_n(&a.data_[0], d, n); return true; }
 template <typename T, size_t CAP> static inline bool mk1(hyb_t<T,CAP,1>& a, const size_t* s, const T* d){ return a.resize(s[0]) && fill(a,d); }
 template <typename T, size_t CAP> static inline bool mk2(hyb_t<T,CAP,2>& a, const size_t* s, const T* d){ return a.resize(s[0],s[1]) && fill(a,d); }
 template <typename T, size_t CAP> static inline bool mk3(hyb_t<T,CAP,3>& a, const size_t* s, const T* d){ return a.resize(s[0],s[1],s[2]) && fill(a,d); }
 template <typename T, size_t CAP> static inline bool mk4(hyb_t<T,CAP,4>& a, const size_t* s, const T* d){ return a.resize(s[0],s[1],s[2],s[3]) && fill(a,d); }
+
+// observe a (maybe-)view: has_value, dim, shape, and the element at a packed index of run-time length
+template <typename V, typename T> static inline int observe(const V& mv, const size_t* idx, size_t nidx, size_t* oshape, size_t* odim, T* out){
+  if (!nm::has_value(mv)) return 0;
+  const auto& v = nm::unwrap(mv);
+  *odim = put(nm::shape(v), oshape);
+  if (nidx != *odim) return 2;           // shape reported, element not read (caller passed an index of the wrong length)
+  *out = (T)v(mk_sv<size_t,8>(idx, nidx));
+  return 1;
+}
